@@ -338,6 +338,38 @@ REPLAY_BINS = {
 }
 
 
+def bounded_exploration(prop, repo, outdir, seeds):
+    """Thorough tier: every native harness registered for the property is run on the tree under several driver seeds.
+    These are BOUNDED checks (never counted as proved); a concrete failing input found on the real crate is reported."""
+    out, found = [], None
+    bins = REPLAY_BINS.get(prop, [])
+    if not bins:
+        return out, None
+    crate = _crate_for(repo, "replay", outdir)
+    tdir = os.path.join(VERIF, "replay", "target") if repo == "/repo" else os.path.join(outdir, "replay_target")
+    for b in bins:
+        name, extra = b[0], b[1]
+        pargs = b[2] if len(b) > 2 else []
+        cmd = ["cargo", "run", "--offline", "--quiet", "--target-dir", tdir, "--bin", name] + extra + (["--"] + pargs if pargs else [])
+        for sd in seeds:
+            env = dict(ENV, VERIF_SEED=str(sd))
+            t0 = time.time()
+            try:
+                r = subprocess.run(cmd, cwd=crate, env=env, capture_output=True, text=True, timeout=1200)
+            except subprocess.TimeoutExpired:
+                out.append({"what": f"native search {name} {' '.join(pargs)} (driver seed {sd})", "bound": "see the harness header", "result": "timed out after 1200 s", "backend": "native"})
+                continue
+            txt = r.stdout + r.stderr
+            ok = [l for l in txt.splitlines() if l.startswith("OK")]
+            if r.returncode == 1 and "VIOLATION" in txt:
+                found = {"kind": "native-replay", "cmd": "cd " + crate + f" && VERIF_SEED={sd} CARGO_NET_OFFLINE=true " + " ".join(cmd),
+                         "output": "\n".join(l for l in txt.splitlines() if "VIOLATION" in l)[:2000]}
+                out.append({"what": f"native search {name} {' '.join(pargs)} (driver seed {sd})", "bound": "see the harness header", "result": "COUNTEREXAMPLE: " + found["output"][:300], "backend": "native"})
+                return out, found
+            out.append({"what": f"native search {name} {' '.join(pargs)} (driver seed {sd})", "bound": (ok[-1][:200] if ok else "ran"), "result": "no counterexample" if r.returncode == 0 else f"exit {r.returncode}", "backend": "native", "wall_s": round(time.time() - t0, 1)})
+    return out, None
+
+
 def replay_search(prop, oid, v, repo, outdir):
     """Best-effort search for a concrete failing input on the REAL crate (never decides a property)."""
     bins = REPLAY_BINS.get(prop, [])
